@@ -46,6 +46,88 @@ pub struct Case {
     /// rendered program, for human readers of replay files (re-rendered on evaluation)
     #[serde(default)]
     pub source: String,
+    /// "provenance" mode: indices into PROVENANCE - pairs of one value made by the runtime library and the same value
+    /// written in the program, which must be equal in every sense (`ty`/`vals` are unused then)
+    #[serde(default)]
+    pub provenance: Vec<usize>,
+}
+
+/// (id, setup lines, library-made expression, source-written expression, a different value of the same type)
+pub const PROVENANCE: &[(&str, &str, &str, &str, &str)] = &[
+    ("list.get-out-of-range", "", "list.get([1, 2, 3], 7)", "zn", "Maybe.Just 2"),
+    ("list.get-negative", "", "list.get([1, 2, 3], -1)", "zn", "Maybe.Just 1"),
+    ("list.get-hit", "", "list.get([1, 2, 3], 1)", "Maybe.Just 2", "zn"),
+    ("list.find-miss", "", "list.find([1, 2, 3], pu x -> x > 5 end)", "zn", "Maybe.Just 3"),
+    ("list.find-hit", "", "list.find([1, 2, 3], pu x -> x > 1 end)", "Maybe.Just 2", "zn"),
+    ("list.last-empty", "ze: [int] : []", "list.last(ze)", "zn", "Maybe.Just 0"),
+    ("list.last", "", "list.last([4, 5])", "Maybe.Just 5", "zn"),
+    ("list.pop-empty", "ze: [int] = []", "list.pop(ze)", "zn", "Maybe.Just 0"),
+    ("list.pop", "zl := [4, 5]", "list.pop(zl)", "Maybe.Just 5", "zn"),
+    ("dict.get-miss", "zd :: dict.from_list([(1, 10)])", "dict.get(zd, 2)", "zn", "Maybe.Just 10"),
+    ("dict.get-hit", "zd :: dict.from_list([(1, 10)])", "dict.get(zd, 1)", "Maybe.Just 10", "zn"),
+    ("none-in-tuple", "", "(list.get([1, 2, 3], 7), 1)", "(zn, 1)", "(Maybe.Just 1, 1)"),
+    ("none-in-list", "", "[list.get([1, 2, 3], 0), list.get([1, 2, 3], 7)]", "[Maybe.Just 1, zn]", "[Maybe.Just 1, Maybe.Just 1]"),
+    ("none-in-just", "", "Maybe.Just (list.get([1, 2, 3], 7))", "Maybe.Just zn", "Maybe.Just (Maybe.Just 1)"),
+    ("map-result", "", "map([1, 2], pu x -> x + 1 end)", "[2, 3]", "[2, 4]"),
+    ("filter-result", "", "filter([1, 2, 3], pu x -> x > 1 end)", "[2, 3]", "[2]"),
+    ("filter-empty-result", "ze: [int] : []", "filter([1, 2, 3], pu x -> x > 5 end)", "ze", "[1]"),
+    ("maybe.map", "", "maybe.map(Maybe.Just 1, pu x -> x + 1 end)", "Maybe.Just 2", "zn"),
+    ("maybe.map-none", "", "maybe.map(zn, pu x -> x + 1 end)", "zn", "Maybe.Just 2"),
+];
+
+fn provenance_source(ids: &[usize]) -> String {
+    let mut s = String::from("zzsame :: fn a, b, c do\n    print(a == b)\n    print(b == a)\n    print(not (a != b))\n    print(not (b != a))\n    print(a != c)\n    print(not (a == c))\n    print(c != a)\n    a <=> b\nend\nstart :: fn do\n    zn: Maybe(int) : Maybe.None\n");
+    for (k, i) in ids.iter().enumerate() {
+        let (_, setup, lib, src, other) = PROVENANCE[*i % PROVENANCE.len()];
+        s.push_str("    do\n");
+        for l in setup.lines() {
+            s.push_str(&format!("        {}\n", l));
+        }
+        s.push_str(&format!("        za{} :: {}\n        zb{} :: {}\n        zc{} :: {}\n        zzsame(za{}, zb{}, zc{})\n    end\n", k, lib, k, src, k, other, k, k, k));
+    }
+    s.push_str("end\n");
+    s
+}
+
+fn evaluate_provenance(case: &Case, labels: &mut Labels) -> Verdict {
+    labels.add("provenance-mode");
+    for i in &case.provenance {
+        labels.add(format!("provenance:{}", PROVENANCE[*i % PROVENANCE.len()].0));
+    }
+    let src = provenance_source(&case.provenance);
+    let lua = match compile(&Project::single(src.clone())) {
+        Outcome::Accepted(l) => l,
+        Outcome::Rejected { errors, .. } => {
+            // the templates are meant to be valid Sylt (see health())
+            labels.add(format!("provenance-rejected:{}", errors[0].message.chars().take(60).collect::<String>()));
+            return Verdict::Discard("provenance-rejected".into());
+        }
+        Outcome::Panicked { .. } => return Verdict::Discard("compiler-panicked".into()),
+    };
+    match run_lua(&lua, 2_000_000) {
+        LuaOutcome::LoadError { msg, .. } => Verdict::Discard(format!("provenance-load-error:{}", msg.chars().take(40).collect::<String>())),
+        LuaOutcome::Ran(t) => {
+            let per = 7;
+            for (n, line) in t.lines.iter().enumerate() {
+                if line != "true" {
+                    let which = case.provenance.get(n / per).map(|i| PROVENANCE[*i % PROVENANCE.len()].0).unwrap_or("?");
+                    let what = ["a == b", "b == a", "not (a != b)", "not (b != a)", "a != c", "not (a == c)", "c != a"][n % per];
+                    return Verdict::Violation {
+                        signature: format!("C19/provenance/{}", if n % per < 4 { "library-made-value-differs-from-written-one" } else { "different-values-equal" }),
+                        detail: format!("{}: `{}` is {} for a = value made by the runtime library, b = the same value written in the program, c = another value\n--- source ---\n{}", which, what, line, src),
+                    };
+                }
+            }
+            if t.lines.len() != per * case.provenance.len() || !matches!(t.terminal, Terminal::Ok) {
+                let which = case.provenance.get(t.lines.len() / per).map(|i| PROVENANCE[*i % PROVENANCE.len()].0).unwrap_or("?");
+                return Verdict::Violation {
+                    signature: "C19/provenance/assert-equal-fails".into(),
+                    detail: format!("{}: the program ends with {:?} after {} lines (`a <=> b` of a library-made and a written value)\n--- source ---\n{}", which, t.terminal, t.lines.len(), src),
+                };
+            }
+            Verdict::Pass { nontrivial: true }
+        }
+    }
 }
 
 #[derive(Clone, Copy, Debug, PartialEq)]
@@ -426,6 +508,12 @@ impl Check for C19 {
 
     fn generate(&self, u: &mut Unstructured, _tier: Tier) -> Option<Case> {
         let mut t = Tape::new(u);
+        if t.chance(1, 10) {
+            let n = 1 + t.below(3);
+            let provenance: Vec<usize> = (0..n).map(|_| t.below(PROVENANCE.len())).collect();
+            let source = provenance_source(&provenance);
+            return Some(Case { ty: Ty::Int, vals: vec![Val::Int(0)], divisor: Val::Int(2), annotate: false, global: false, inline: false, source, provenance });
+        }
         let profile = [Profile::Any, Profile::Ord, Profile::Arith][t.weighted(&[36, 32, 32])];
         let depth = 1 + t.weighted(&[30, 45, 25]);
         let mut g = G { t: &mut t, next_id: 0 };
@@ -448,10 +536,13 @@ impl Check for C19 {
         let annotate = g.t.chance(1, 3);
         let global = g.t.chance(1, 5);
         let inline = g.t.chance(1, 6);
-        Some(Case { ty, vals, divisor, annotate, global, inline, source: String::new() }.with_source())
+        Some(Case { ty, vals, divisor, annotate, global, inline, source: String::new(), provenance: Vec::new() }.with_source())
     }
 
     fn evaluate(&self, case: &Case, labels: &mut Labels) -> Verdict {
+        if !case.provenance.is_empty() {
+            return evaluate_provenance(case, labels);
+        }
         if !case.well_formed() {
             return Verdict::Discard("malformed-case".into());
         }
@@ -669,6 +760,17 @@ impl Check for C19 {
     }
 
     fn simplify_at(&self, case: &Case, idx: usize) -> Step<Case> {
+        if !case.provenance.is_empty() {
+            // fewer pairs
+            return if case.provenance.len() > 1 && idx < case.provenance.len() {
+                let mut c = case.clone();
+                c.provenance.remove(idx);
+                c.source = provenance_source(&c.provenance);
+                Step::Candidate(c)
+            } else {
+                Step::End
+            };
+        }
         let mut cands: Vec<Option<Case>> = Vec::new();
         let base = case.clone();
         // fewer values
@@ -855,7 +957,7 @@ fn admitted_matrix() -> (serde_json::Value, Vec<String>, Vec<String>) {
     let mut mismatches = Vec::new();
     let mut not_admitted = Vec::new();
     for (name, ty, x, y) in classes {
-        let case = Case { ty: ty.clone(), vals: vec![x.clone(), y.clone()], divisor: Val::Int(2), annotate: true, global: false, inline: false, source: String::new() };
+        let case = Case { ty: ty.clone(), vals: vec![x.clone(), y.clone()], divisor: Val::Int(2), annotate: true, global: false, inline: false, source: String::new(), provenance: Vec::new() };
         let predicted = case.ops(pr);
         let mut row = serde_json::Map::new();
         for k in all {
